@@ -44,6 +44,8 @@ type CLI struct {
 	// AfterBare: printed behind the prompt that answers a bare return in command state, followed by the prompt again (an
 	// asynchronous log message that makes the device redraw its prompt)
 	AfterBare string
+	// Mute: the device swallows whatever it receives from now on and says nothing
+	Mute bool
 }
 
 // Start implements Reactor.
@@ -66,6 +68,10 @@ func (c *CLI) State() string {
 
 // OnInput implements Reactor.
 func (c *CLI) OnInput(b []byte) []byte {
+	if c.Mute {
+		return nil
+	}
+
 	var out bytes.Buffer
 
 	for _, ch := range b {
